@@ -222,3 +222,49 @@ func VF_C03_Document() {
 		}
 	}
 }
+
+// VF_C03_Pointers (C03): Document.GetByPath over a fixed tree with pointers of
+// every shape: with and without leading / trailing separators, with an empty
+// token in the middle (the empty key of an object; never an array index),
+// through arrays, to missing members.  Each pointer resolves to exactly the
+// node the plain JSON tree has there, or to an error; reading changes nothing.
+func VF_C03_Pointers() {
+	d := vfNewPlainDoc()
+	_, e1 := d.PutToObject("a", map[string]interface{}{"": map[string]interface{}{"b": "a..b"}, "b": "a.b"})
+	_, e2 := d.PutToObject("arr", []interface{}{"x", map[string]interface{}{"k": "in-arr"}})
+	vf.Assert(e1 == nil && e2 == nil, "setup")
+	type pc struct {
+		ptr  string
+		want interface{} // nil: an error is expected
+	}
+	obj := map[string]interface{}{"": map[string]interface{}{"b": "a..b"}, "b": "a.b"}
+	cases := []pc{
+		{"/a/b", "a.b"}, {"a/b", "a.b"}, {"/a/b/", "a.b"},
+		{"/a//b", "a..b"}, {"a//b", "a..b"},
+		{"/a", obj},
+		{"/a///b", nil}, {"/a/b/c", nil}, {"/missing", nil}, {"/a/missing", nil},
+		{"/arr/0", "x"}, {"/arr/1/k", "in-arr"}, {"/arr//1", nil}, {"/arr/2", nil}, {"/arr/-1", nil}, {"/arr/x", nil},
+	}
+	c := cases[vf.Choice("pointer", len(cases))]
+	vf.Tag("pointer", c.ptr)
+	before := d.ToJSON()
+	n0, s0 := pendingOps(d)
+	var got Document
+	var err error
+	panicked, msg := vf.Try(func() {
+		g, e := d.GetByPath(c.ptr)
+		got, err = g, toErr(e)
+	})
+	vf.Reach("resolved")
+	if panicked {
+		vf.Tag("_panic", msg)
+	}
+	vf.Assert(!panicked, "C03 no panic")
+	if c.want == nil {
+		vf.Assert(err != nil, "C03 a pointer that addresses nothing is refused")
+	} else {
+		vf.Assert(err == nil && got != nil && jsonDeepEq(got.GetValue(), c.want), "C03 a pointer resolves to the node the plain tree has there")
+	}
+	n1, s1 := pendingOps(d)
+	vf.Assert(jsonDeepEq(d.ToJSON(), before) && n1 == n0 && s1 == s0, "C03 reading changes nothing and queues nothing")
+}
